@@ -38,6 +38,8 @@ func c18ip(i int) string   { return fmt.Sprintf("10.0.0.%d", i+1) }
 func c18addr(i int) string { return "tcp://" + c18ip(i) + ":9502" }
 
 type c18Cluster struct {
+	curOp       map[string]string // scheduler thread -> the call it is executing
+	late        []string          // requests a controller operation sent to a replica that was not a member at that moment
 	c           *controller.Controller
 	nodes       []*eb.ModelNode
 	bes         map[int]*remote.Remote // latest backend per node
@@ -67,6 +69,20 @@ func (c18Transport) RoundTrip(req *http.Request) (*http.Response, error) {
 	var n int
 	if _, err := fmt.Sscanf(host, "10.0.0.%d", &n); err != nil || cl == nil || n < 1 || n > len(cl.nodes) {
 		return nil, fmt.Errorf("dial tcp %s: connection refused", req.URL.Host)
+	}
+	// a removed replica receives no further calls: an operation that addresses members only (prepare / verify rebuild,
+	// volume snapshot) holds the controller lock from its membership look-up to its last request, so the replica it talks
+	// to is listed at the moment the request arrives (the scheduler runs one thread at a time: the view is consistent)
+	if op := cl.curOp[vs.ThreadName()]; cl.c != nil && (strings.HasPrefix(op, "Prep") || strings.HasPrefix(op, "Ver") || op == "Snap") {
+		member := false
+		for _, r := range cl.c.VerifView().Replicas {
+			if r.Address == c18addr(n-1) {
+				member = true
+			}
+		}
+		if !member {
+			cl.late = append(cl.late, fmt.Sprintf("%s sent %s %s to node %d, which is not a member of the volume at that moment (it was removed while the operation ran)", op, req.Method, req.URL.Path, n))
+		}
 	}
 	if act := req.URL.Query().Get("action"); act != "" {
 		key := fmt.Sprintf("%d/%s", n-1, act)
@@ -302,6 +318,12 @@ var uuidRe = regexp.MustCompile(`[0-9a-f]{8}-[0-9a-f]{4}-[0-9a-f]{4}-[0-9a-f]{4}
 // op runs one API call and returns its result as text.
 func (cl *c18Cluster) op(name string) string {
 	c := cl.c
+	if vs.Active() {
+		if cl.curOp == nil {
+			cl.curOp = map[string]string{}
+		}
+		cl.curOp[vs.ThreadName()] = name
+	}
 	idx := func() int { var i int; fmt.Sscanf(name[len(name)-1:], "%d", &i); return i }
 	e := func(err error) string {
 		if err == nil {
@@ -388,6 +410,11 @@ func (cl *c18Cluster) op(name string) string {
 		return name + ":" + e(c.RemoveReplica(c18addr(idx())))
 	case strings.HasPrefix(name, "Add"):
 		return name + ":" + e(c.AddReplica(c18addr(idx())))
+	case strings.HasPrefix(name, "Prep"):
+		// the controller's part of the start of a rebuild (chain look-ups on the source and on the joiner, transfer of the
+		// head's metadata through the sync agents - which the model nodes do not have: the call ends in an error there)
+		_, err := c.PrepareRebuildReplica(c18addr(idx()))
+		return name + ":" + e(err)
 	case strings.HasPrefix(name, "Ver"):
 		// the controller half of the end of a rebuild; the replica's own half (RbOff) is a separate call
 		err := c.VerifyRebuildReplica(c18addr(idx()))
@@ -496,6 +523,9 @@ func (cl *c18Cluster) agreement() []string {
 func (cl *c18Cluster) invariants() []string {
 	v := cl.c.VerifView()
 	var out []string
+	for _, l := range cl.late {
+		out = append(out, "removed-replica-called: "+l)
+	}
 	seen := map[string]bool{}
 	wo, rw := 0, 0
 	for _, r := range v.Replicas {
@@ -727,6 +757,10 @@ func c18Configs(tier string) []C18Cfg {
 	}
 	for _, p := range [][]string{{"W0", "Add2"}, {"R", "Add2"}, {"Add2", "Rm1"}, {"Add2", "Mon0"}, {"Add2", "Add3"}, {"Add2", "Add2"}, {"Snap", "Add2"}} {
 		add("rw2", p...)
+	}
+	// the controller's prepare-rebuild step against the removal of the very replica it prepares
+	for _, p := range [][]string{{"Prep2", "Mon2"}, {"Prep2", "Rm2"}, {"Prep2", "WF2"}, {"Prep2", "Err2"}, {"Prep2", "Mon0"}} {
+		add("rw2wo", p...)
 	}
 	// the last replica leaves (the frontend is shut down on that path)
 	for _, p := range [][]string{{"Rm0", "Rm0"}, {"Rm0", "Mon0"}, {"Rm0", "W0"}, {"Rm0", "R"}, {"Mon0", "W0"}, {"Rm0", "Err0"}} {
